@@ -16,6 +16,7 @@ import (
 	"fmt"
 	"os"
 	"path/filepath"
+	"strings"
 	"testing"
 	"time"
 
@@ -46,6 +47,10 @@ func (c vxC18Case) String() string {
 		return fmt.Sprintf("file %v reached through <symlinked dir>/../tool", c.A)
 	case 5:
 		return fmt.Sprintf("file %v named by the relative path tools/probe", c.A)
+	case 6:
+		return fmt.Sprintf("file %v named by a bare command name that only $PATH resolves", c.A)
+	case 7:
+		return fmt.Sprintf("root-controlled file that becomes %v while its call may be waiting behind another command", c.A)
 	}
 	return fmt.Sprintf("symlink re-pointed from file %v to file %v", c.A, c.B)
 }
@@ -222,6 +227,81 @@ func (e *vxC18Env) run(c vxC18Case) {
 		}
 		_ = os.Remove(decoyMarker)
 		_ = os.RemoveAll(root)
+	case 6:
+		// bare command name (no slash): fan2go checks the name as a path relative to its working directory; os/exec would
+		// look the same name up on $PATH. A file of state A sits in a directory that is first on $PATH and nowhere else:
+		// whatever the verdict mechanism, a file that is not root-controlled must not run.
+		root := filepath.Join(e.dir, base+".d")
+		if err := os.MkdirAll(filepath.Join(root, "bin"), 0o755); err != nil {
+			panic(err)
+		}
+		name := "vxprobe" + base
+		file := filepath.Join(root, "bin", name)
+		if err := os.WriteFile(file, []byte("#!/bin/sh\n: > "+marker+"\necho ran\n"), 0o700); err != nil {
+			panic(err)
+		}
+		if err := c.A.Apply(file); err != nil {
+			panic(err)
+		}
+		oldPath := os.Getenv("PATH")
+		os.Setenv("PATH", filepath.Join(root, "bin")+":"+oldPath)
+		old, _ := os.Getwd()
+		_ = os.Chdir(root)
+		o := e.exec(name, marker)
+		_ = os.Chdir(old)
+		os.Setenv("PATH", oldPath)
+		if !vcmd.Allowed(c.A.Uid, c.A.Gid, c.A.Mode) {
+			e.judge(c, "first", c.A, o)
+		} else if o.executed {
+			e.rep.Count("bare name of a root-controlled file on PATH: executed", 1)
+		} else {
+			e.rep.Count("bare name of a root-controlled file on PATH: refused", 1)
+		}
+		_ = os.RemoveAll(root)
+	case 7:
+		// a call that has been checked may have to wait (another command is running); the file changes owner meanwhile.
+		// The script reports the owner and mode IT HAS WHEN IT RUNS: whenever it runs, it must be root-controlled then.
+		root := filepath.Join(e.dir, base+".d")
+		if err := os.MkdirAll(root, 0o755); err != nil {
+			panic(err)
+		}
+		slow := filepath.Join(root, "slow")
+		if err := os.WriteFile(slow, []byte("#!/bin/sh\nsleep 1.2\necho slow\n"), 0o755); err != nil {
+			panic(err)
+		}
+		probe := filepath.Join(root, "probe")
+		if err := os.WriteFile(probe, []byte("#!/bin/sh\nstat -c '%u:%g %a' \"$0\" > "+marker+"\necho ran\n"), 0o755); err != nil {
+			panic(err)
+		}
+		_ = os.Chown(slow, 0, 0)
+		_ = os.Chown(probe, 0, 0)
+		_ = os.Remove(marker)
+		done := make(chan struct{}, 2)
+		go func() { _, _ = SafeCmdExecution(slow, nil, 5*time.Second); done <- struct{}{} }()
+		time.Sleep(250 * time.Millisecond)
+		go func() { _, _ = SafeCmdExecution(probe, nil, 5*time.Second); done <- struct{}{} }()
+		time.Sleep(250 * time.Millisecond)
+		if err := c.A.Apply(probe); err != nil {
+			panic(err)
+		}
+		<-done
+		<-done
+		if b, err := os.ReadFile(marker); err == nil {
+			var uid, gid int
+			var mode uint32
+			if _, err := fmt.Sscanf(strings.TrimSpace(string(b)), "%d:%d %o", &uid, &gid, &mode); err == nil {
+				if !vcmd.Allowed(uid, gid, os.FileMode(mode)) {
+					e.rep.Violate(mc.Violation{Signature: "C18 a command ran although its file was not root-controlled at that moment (changed while the call waited)",
+						Detail: fmt.Sprintf("probe was root:root 0755 when SafeCmdExecution was called, another command was running; 250 ms later the file became %v; when the probe ran it reported owner/mode %q", c.A, strings.TrimSpace(string(b))), Replay: c})
+				} else {
+					e.rep.Count("waiting call: ran while root-controlled", 1)
+				}
+			}
+		} else {
+			e.rep.Count("waiting call: not executed", 1)
+		}
+		_ = os.Remove(marker)
+		_ = os.RemoveAll(root)
 	case 3:
 		fa := e.script(base+"a", marker, c.A)
 		fb := e.script(base+"b", marker, c.B)
@@ -304,6 +384,20 @@ func TestVX_C18(t *testing.T) {
 		idx++
 		if mc.Mine(idx) {
 			e.run(vxC18Case{Part: 5, A: a})
+			n4++
+		}
+		// part 6: bare command name found on $PATH only
+		idx++
+		if mc.Mine(idx) {
+			e.run(vxC18Case{Part: 6, A: a})
+			n4++
+		}
+	}
+	// part 7: owner/mode change while a checked call may be waiting for another command (a few states: 1.2 s each)
+	for _, a := range []vcmd.PermState{{Uid: 1234, Gid: 1234, Mode: 0o755}, {Uid: 0, Gid: 0, Mode: 0o757}, {Uid: 0, Gid: 1234, Mode: 0o775}} {
+		idx++
+		if mc.Mine(idx) {
+			e.run(vxC18Case{Part: 7, A: a})
 			n4++
 		}
 	}
